@@ -72,6 +72,13 @@ Theorem C16_safe_delete : forall c w x ce i,
     end
   end.
 Proof. exact safe_delete_spec. Qed.
+(* A discard forgets the revision of ITS document only: what the client has recorded for any other document -
+   also one whose identifier or URL merely starts with the discarded one's - is untouched (sremove is the
+   revision-store update in C16_safe_delete above and in the plain discard). *)
+Theorem C16_discard_keeps_other_revisions : forall c (rv : list (string * rev)) i j, i <> j ->
+  sassoc (doc_url c j) (sremove (doc_url c i) rv) = sassoc (doc_url c j) rv.
+Proof. exact discard_keeps_other_revisions. Qed.
+
 Theorem C16_safe_delete_gone : forall c w x ce i r v,
   nth_error (heap (w_cl w)) x = Some ce -> c_id ce = i -> legal i = true ->
   sassoc (doc_url c i) (revs (w_cl w)) = Some r -> live (w_sv w) i = Some (r, v) ->
